@@ -939,6 +939,24 @@ def subst(v, mapping: dict):
         return mapping[v]
     if not isinstance(v, tuple):
         return v
+    if len(v) == 4 and v[0] == "comp" and isinstance(v[3], tuple) and any(isinstance(k, tuple) and k and k[0] == "bv" for k in mapping):
+        # capture-avoiding: a comprehension that binds a variable of the same identity (the same sub-term shared between two places,
+        # e.g. `[y[i] for i in idxs]` inside a map that was itself composed over `idxs`) keeps its own variable
+        m = mapping
+        gens = []
+        for g in v[3]:
+            if not (isinstance(g, tuple) and len(g) == 3):
+                break
+            tg, it, ifs = g
+            it2 = subst(it, m) if isinstance(it, tuple) else it
+            bound = {x for x in walk(tg) if isinstance(x, tuple) and x and x[0] == "bv"} if isinstance(tg, tuple) else set()
+            if bound & set(m):
+                m = {k: x for k, x in m.items() if k not in bound}
+            gens.append((tg, it2, tuple(subst(c, m) if isinstance(c, tuple) else c for c in ifs)))
+        else:
+            if m is not mapping:
+                out = ("comp", v[1], subst(v[2], m) if isinstance(v[2], tuple) else v[2], tuple(gens))
+                return mapping.get(out, out)
     out = tuple(subst(x, mapping) if isinstance(x, tuple) else x for x in v)
     return mapping.get(out, out)
 
@@ -1208,6 +1226,12 @@ def simp(v):
                 parts.append(v[1])
             parts.extend(e[1] if e[0] == "fstr" else [e])
         return flatten_fstr(("fstr", tuple(parts)))
+    # list concatenation with a list display: [a, b] + L == [a, b, *L],  L + [a] == [*L, a]  (the other operand of `+` must be a list
+    # too, or the expression raises)
+    if k == "binop" and v[1] == "Add" and (v[2][0] == "list" or v[3][0] == "list") and not is_str(v[2]) and not is_str(v[3]):
+        left = v[2][1] if v[2][0] == "list" else (("star", v[2]),)
+        right = v[3][1] if v[3][0] == "list" else (("star", v[3]),)
+        return ("list", tuple(left) + tuple(right))
     if k == "binop" and v[1] == "Add" and is_str(v[2]) and is_str(v[3]):
         def parts(x):
             if x[0] == "fstr":
@@ -1255,6 +1279,42 @@ def simp(v):
                 b2 = ("filtered", base, bv, ifs) if ifs else base
                 return simp(subst(body, {bv: ("elem", b2, v[2])}))
     return v
+
+
+def summarise_appends(flow) -> dict:
+    """{("acc", name): comprehension IR} for every local list that is provably `[value(x) for x in S]` although it is spelled as
+    an accumulation loop with intermediate statements (`L = []; for x in S: t = ..; t.remove(..); L.append(g(x, t))`), which the
+    syntactic loop-folding of core._Canon leaves alone.  Conditions: one initialisation to the empty list, one `append`, sited in
+    exactly one loop more than the initialisation and under the same guards, no other write to the list, the loop iterates an
+    unfiltered one-to-one view of a sequence, and the appended value depends on the iteration only through the loop's element.
+    A rule can substitute these (subst + simp) into the values it reads; nothing is substituted by the engine itself."""
+    out = {}
+    by = {}
+    for f in flow.facts:
+        if isinstance(f.target, str) and f.kind in ("init", "append", "store", "augstore", "remove", "mutate"):
+            by.setdefault(f.target, []).append(f)
+    for name, fs in by.items():
+        inits = [f for f in fs if f.kind == "init"]
+        apps = [f for f in fs if f.kind == "append"]
+        if len(inits) != 1 or len(apps) != 1 or len(fs) != 2 or simp(inits[0].value) != ("list", ()) or apps[0].op != "append":
+            continue
+        i0, a0 = inits[0], apps[0]
+        if len(a0.loops) != len(i0.loops) + 1 or a0.loops[:len(i0.loops)] != i0.loops or a0.guards != i0.guards or a0.seq < i0.seq:
+            continue
+        lp = a0.loops[-1]
+        if lp.kind != "for":
+            continue
+        m = as_map(simp(lp.iter))
+        if m is None or m[3]:
+            continue
+        base = m[2]
+        bv = ("bv", "_s", next(_fresh))
+        val = simp(subst(simp(a0.value), {("elem", base, lp.id): bv}))
+        if contains(val, lambda t: isinstance(t, tuple) and len(t) == 3 and t[0] in ("elem", "idx", "key", "val", "carried", "after") and t[2] == lp.id) \
+                or contains(val, lambda t: isinstance(t, tuple) and t and t[0] in ("unknown", "mutated")) or contains(val, lambda t: t == ("acc", name)):
+            continue
+        out[("acc", name)] = ("comp", "list", val, ((bv, base, ()),))
+    return out
 
 
 # ------------------------------------------------------------------ pattern matching
